@@ -26,7 +26,7 @@ func (p *c26) Case(i int) fw.Case     { return fw.Case{} }
 func (p *c26) Run(c fw.Case, r *fw.Rec) {}
 
 func (p *c26) Rule() string {
-	return "the real cmd/xgo binary (built from the working tree, no build tag) formats files in a scratch directory under a ptrace supervisor that sees every thread. Pass 1 lets the run complete and records, in one global order, every file-system-mutating system call that touches the scratch tree (openat with O_CREAT/O_TRUNC/O_WRONLY/O_RDWR, write/pwrite64, close of such a file, unlink(at), rename(at/at2), link(at), chmod/fchmod(at), ftruncate, fsync). For each recorded call k the scenario is re-created from scratch and the whole process is SIGKILLed at the entry of call k (the state after call k-1), and once more after the last call. Scenarios: file kinds .xgo/.gox/.go, permission bits 0644/0600/0755/0640/0444, invocation by relative name, by ./sub/name, by absolute path, by directory (several files), --smart on a .go file, already formatted file (no write expected), a 300 KiB file. Oracle at every kill point: every target path exists and holds exactly the original or exactly the formatted bytes; after the complete run the bytes are the formatted text and the permission bits are the original ones."
+	return "the real cmd/xgo binary (built from the working tree, no build tag) formats files in a scratch directory under a ptrace supervisor that sees every thread. Pass 1 lets the run complete and records, in one global order, every file-system-mutating system call that touches the scratch tree (openat with O_CREAT/O_TRUNC/O_WRONLY/O_RDWR, write/pwrite64, close of such a file, unlink(at), rename(at/at2), link(at), chmod/fchmod(at), ftruncate, fsync). For each recorded call k the scenario is re-created from scratch and the whole process is SIGKILLed at the entry of call k (the state after call k-1), and once more after the last call. Scenarios: file kinds .xgo/.gox/.go, permission bits 0644/0600/0755/0664/0444/0640/0666/0775 (some with bits the process umask would clear), invocation by relative name, by ./sub/name, by absolute path, by directory (several files), --smart on a .go file, already formatted file (no write expected), a 300 KiB file. Oracle at every kill point: every target path exists and holds exactly the original or exactly the formatted bytes; after the complete run the bytes are the formatted text and the permission bits are the original ones."
 }
 
 func (p *c26) Assumptions() []string {
@@ -56,7 +56,7 @@ const c26UglyGox = "var (\n  n int\n)\nfunc  Add( d int ) {\n  n+=d+%d\n}\n"
 
 func (p *c26) scenarios() []c26scenario {
 	r := p.Env.Rand("C26", 0)
-	modes := []os.FileMode{0o644, 0o600, 0o755, 0o640, 0o444}
+	modes := []os.FileMode{0o644, 0o600, 0o755, 0o664, 0o444, 0o640, 0o666, 0o775} // incl. bits a umask of 022 would clear
 	var out []c26scenario
 	add := func(s c26scenario) { out = append(out, s) }
 	n := p.Env.Pick(1, 16)
@@ -309,6 +309,7 @@ func (p *c26) setup(work string, sc c26scenario) error {
 
 func (p *c26) RunCustom(env *fw.Env, d *fw.Driver) error {
 	p.Env = env
+	syscall.Umask(0o022) // the usual umask: modes with group/other write bits must survive it
 	bin := filepath.Join(env.Scratch, "xgo")
 	cmd := exec.Command("go", "build", "-o", bin, "./cmd/xgo")
 	cmd.Dir = env.Repo
